@@ -6,7 +6,7 @@
    property as stated (fields outside valid_field are characterised in design/C35.md). *)
 From Coq Require Import List Bool NArith ZArith.
 From MV Require Import Base.Bytes Model.Headers Model.MultimapSpec
-  Proofs.HeadersRefine Proofs.HeadersLaws Proofs.HeadersRoundtrip Proofs.HeadersSample.
+  Proofs.HeadersRefine Proofs.HeadersLaws Proofs.HeadersRoundtrip Proofs.HeadersRoundtripExact Proofs.HeadersSample.
 Import ListNotations.
 
 (* For every initial pair of header objects and every history of operations (lookup, membership,
@@ -107,6 +107,15 @@ Theorem C35_roundtrip : forall (fs : list field),
   forallb valid_field fs = true -> read_back fs = Some (RhOk fs).
 Proof. exact roundtrip. Qed.
 Print Assumptions C35_roundtrip.
+
+(* valid_field is exact for fields without LF: if no name or value contains LF, the round trip
+   returns the same fields if and only if every field is valid (empty name, leading SP/TAB or a
+   colon in the name, leading/trailing whitespace in the value are exactly what breaks it). *)
+Theorem C35_roundtrip_exact : forall (fs : list field),
+  forallb lf_free fs = true ->
+  (read_back fs = Some (RhOk fs) <-> forallb valid_field fs = true).
+Proof. exact roundtrip_exact. Qed.
+Print Assumptions C35_roundtrip_exact.
 
 (* The hypotheses are satisfiable on non-trivial values: three valid fields with a repeated name in
    two spellings round-trip; two different states/histories that agree up to case satisfy the
